@@ -481,4 +481,11 @@ theorem genKind_ptr (env : TEnv) (rec : GoType → Gen Schema) (e : GoType) :
     genKind env rec (.ptr e) = (rec e).map ptrWrap := by
   simp only [genKind, Gen.map]; cases rec e <;> rfl
 
+theorem ptrWrap_plain' (u : Schema) (h1 : u.type ≠ "union") (h2 : u.type ≠ "array") (h3 : u.type ≠ "map") :
+    ptrWrap u = nullableSchema u := by
+  simp [ptrWrap, h1, h2, h3]
+
+theorem ptrWrap_stays' (u : Schema) (h : u.type = "union" ∨ u.type = "array" ∨ u.type = "map") : ptrWrap u = u := by
+  rcases h with h | h | h <;> simp [ptrWrap, h]
+
 end Avro
